@@ -13,7 +13,11 @@ VERIF = os.path.dirname(os.path.dirname(os.path.dirname(os.path.abspath(__file__
 REPO = os.environ.get("VERIF_REPO", "/repo")
 WORK = os.path.join(VERIF, ".work")
 TABLES = os.path.join(VERIF, "tables")
-EVIDENCE = os.path.join(VERIF, "evidence")
+# evidence/<id>.json is rewritten by every run against /repo; runs against a scratch tree (VERIF_REPO) or a
+# seeded change (tools/dev/run_seed.sh sets VERIF_EVIDENCE_DIR) write elsewhere so that the committed evidence
+# always describes the unchanged tree
+EVIDENCE = os.environ.get("VERIF_EVIDENCE_DIR") or (
+    os.path.join(VERIF, "evidence") if REPO == "/repo" else os.path.join(WORK, "evidence-scratch"))
 REPLAY = os.path.join(WORK, "replay")
 KNOWN_FINDINGS = os.path.join(VERIF, "known_findings.json")
 KEEP_HASH_DIRS = 3
